@@ -7,6 +7,14 @@ OptAsync0 == (d1 :> [min |-> 2, max |-> 0, asynch |-> TRUE])
 OptSync0  == (d1 :> [min |-> 2, max |-> 0, asynch |-> FALSE])
 TimeBound == now <= 12 /\ \A d \in Dialer : Len(dialLog[d]) <= 7
 PipeSym == Permutations(Pipe)
+\* reconnect times changed while the dialer is at work (SetReconnOpt): the environment picks among a few settings at any
+\* moment; the delay stays within the smallest initial value and the largest maximum (or initial value) there ever was,
+\* attempts stay spaced by the delay in force when they were scheduled, a started dialer always has a retry pending
+OptChoices == {[min |-> 2, max |-> 5], [min |-> 2, max |-> 0], [min |-> 1, max |-> 3]}
+SetOptNext == \/ Next
+              \/ \E d \in Dialer, v \in OptChoices : (opt[d].min # v.min \/ opt[d].max # v.max) /\ SetReconnOpt(d, v.min, v.max)
+SetOptSpec == Init /\ [][SetOptNext]_vars
+DelayEverBounds == \A d \in Dialer : reconn[d] >= 1 /\ reconn[d] <= 5
 \* liveness configurations: no state constraint (it would cut behaviours short); the environment is finite by construction
 OptNone == [d \in {} |-> [min |-> 0, max |-> 0, asynch |-> TRUE]]
 LiveNext == NextFine /\ UNCHANGED opt /\ \A d \in Dialer : Len(dialLog'[d]) <= 6
